@@ -70,3 +70,20 @@ for _pid, _q, _t in (('C01', 6000, 60000), ('C06', 6000, 60000), ('C07', 6000, 6
                      ('C13', 2000, 20000), ('C14', 2000, 20000), ('C15', 4000, 40000), ('C16', 3000, 30000),
                      ('C18', 4000, 40000)):
     reg(Prop(_pid, {'quick': _q, 'thorough': _t}, {'quick': 100, 'thorough': 1500}, RULE_HIST, nontrivial=nt_structure))
+
+
+def _c17_extra(prop, tier, seed, agg):
+    from . import extras
+    return extras.c17_locale(prop, tier, seed, agg)
+
+
+RULE_C17 = ('one evaluation = one seeded complete score (built by the library from a model-generated tree) with ALL its '
+            'fault cases, each executed on a forked copy of the built document: every default encoding x every prior '
+            'destination state fault-free; break.node_k for every node and requirement kind; async exceptions at sampled '
+            'function entries of write(); SimFS errors at open / each write / close, short writes, ENOSPC, read-only, '
+            'directory; distinct = distinct documents (op-list hash); non-trivial = at least one fault fired in its cases')
+reg(Prop('C17', {'quick': 400, 'thorough': 6000}, {'quick': 100, 'thorough': 1500}, RULE_C17, level='fault_enumeration',
+         cfg={'quick': {'max_ops': 400, 'max_size': 30, 'async_points': 4}, 'thorough': {'max_ops': 400, 'max_size': 60, 'async_points': 12}},
+         nontrivial=nt_fault_fired, prefix_closed=False, extra=_c17_extra,
+         assumptions=['SimFS models open/write/close/replace/remove for the virtual mount /simfs only; tempfile/os.open based implementations are not modelled',
+                      'Latin-1 and cp1252 default encodings are emulated by SimFS; only C/POSIX and C.UTF-8 exist as real locales in the image']))
